@@ -23,6 +23,8 @@
 -/
 import Gama.Lemmas.MatVecKernels
 import Gama.Lemmas.MatVecValues
+import Gama.Lemmas.MatVecKernels2
+import Gama.Lemmas.MatVecValues2
 namespace Gama.Props.C15
 open Gama Gama.MatVec Gama.Gen Matrix
 
@@ -117,5 +119,99 @@ example : MV.dot (#[1, 2, 3] : Vec Int) #[4, 5, 6] = .ok 32 ∧ MV.dot (#[] : Ve
     the code returns (1·1+2·3, 1·2+2·4, 1·3+2·5) = (7,10,13), `bᵀ·trans(M)` has 2 entries -/
 example : MV.vecMulT (#[1, 2, 0] : Vec Int) (MatVec.trans (⟨2, 3, #[1, 2, 3, 4, 5, 6]⟩ : Mat Int)) = .ok #[7, 10, 13]
     ∧ (MatVec.trans (⟨2, 3, #[1, 2, 3, 4, 5, 6]⟩ : Mat Int)).WF := ⟨by decide, by simp [TMat.WF, MatVec.trans]⟩
+
+/-! ## Round 10: the matrix-valued kernels and the storage primitives -/
+
+/-- **source tie, matrix-valued loops and storage primitives**: the regenerated `operator*(Mat,Mat)` (pointer version),
+    `operator*(TransMat,Mat)`, `operator*(Mat,TransMat)`, `operator*(TransMat,TransMat)`, `trans(TransMat)` (two loop
+    levels around `*c++ = s`) and `MatVecBase::mul/add/sub`, `operator*=` (stores over a LIVE buffer, `*=` in place)
+    EQUAL the executed hand models, for all operands -/
+theorem C15_matrix_kernels_source_tie {K : Type} [Add K] [Sub K] [Mul K] [Zero K] :
+    (∀ (A B : Mat K), MV.matMul A B = matMul A B)
+    ∧ (∀ (A : TMat K) (B : Mat K), MV.tMulMat A B = tMulMat A B)
+    ∧ (∀ (A : Mat K) (B : TMat K), MV.matMulT A B = matMulT A B)
+    ∧ (∀ (A B : TMat K), MV.tMulT A B = tMulT A B)
+    ∧ (∀ (M : TMat K), MV.transT M = transT M)
+    ∧ (∀ (a : Array K) (f : K) (X : Array K), MV.baseMul a f X = baseMul a f X.size)
+    ∧ (∀ (a b X : Array K), MV.baseAdd a b X = baseAdd a b X.size)
+    ∧ (∀ (a b X : Array K), MV.baseSub a b X = baseSub a b X.size)
+    ∧ (∀ (a : Array K) (f : K), MV.baseScale a f = baseMul a f a.size) :=
+  ⟨gen_matMul, gen_tMulMat, gen_matMulT, gen_tMulT, gen_transT, gen_baseMul, gen_baseAdd, gen_baseSub, gen_baseScale⟩
+
+section
+variable {K : Type} [Semiring K]
+
+/-- **Mat·Mat, the pointer loop**: the regenerated `operator*(const Mat&, const Mat&)` returns the Mathlib product -/
+theorem C15_mat_mat_value (A B : Mat K) (hA : A.WF) (hB : B.WF) (hc : A.cols = B.rows) (d : K) :
+    ∃ C, MV.matMul A B = .ok C ∧ C.rows = A.rows ∧ C.cols = B.cols ∧
+      C.toMatrix d A.rows B.cols = A.toMatrix d A.rows A.cols * B.toMatrix d A.cols B.cols := by
+  obtain ⟨C, h1, _, h3, h4, h5⟩ := matMul_toMatrix A B hA hB hc d
+  exact ⟨C, by rw [gen_matMul]; exact h1, h3, h4, h5⟩
+
+/-- **trans(A)·B** -/
+theorem C15_transmat_mat_value (A : TMat K) (B : Mat K) (hA : A.WF) (hB : B.WF) (hc : A.cols = B.rows) (d : K) :
+    ∃ C, MV.tMulMat A B = .ok C ∧ C.rows = A.rows ∧ C.cols = B.cols ∧ C.WF ∧
+      C.toMatrix d A.rows B.cols = A.toMatrix d A.rows A.cols * B.toMatrix d A.cols B.cols := by
+  rw [gen_tMulMat]; exact tMulMat_toMatrix A B hA hB hc d
+
+/-- **A·trans(B)** -/
+theorem C15_mat_transmat_value (A : Mat K) (B : TMat K) (hA : A.WF) (hB : B.WF) (hc : A.cols = B.rows) (d : K) :
+    ∃ C, MV.matMulT A B = .ok C ∧ C.rows = A.rows ∧ C.cols = B.cols ∧ C.WF ∧
+      C.toMatrix d A.rows B.cols = A.toMatrix d A.rows A.cols * B.toMatrix d A.cols B.cols := by
+  rw [gen_matMulT]; exact matMulT_toMatrix A B hA hB hc d
+
+/-- **trans(A)·trans(B)** (the code after cb8c13f3) -/
+theorem C15_transmat_transmat_value (A B : TMat K) (hA : A.WF) (hB : B.WF) (hc : A.cols = B.rows) (d : K) :
+    ∃ C, MV.tMulT A B = .ok C ∧ C.rows = A.rows ∧ C.cols = B.cols ∧ C.WF ∧
+      C.toMatrix d A.rows B.cols = A.toMatrix d A.rows A.cols * B.toMatrix d A.cols B.cols := by
+  rw [gen_tMulT]; exact tMulT_toMatrix A B hA hB hc d
+
+/-- the view of `trans(M)` is `Mᵀ`, so the three statements above are about `Mᵀ·B`, `A·Mᵀ`, `Mᵀ·Nᵀ` -/
+theorem C15_trans_view (M : Mat K) (hM : M.WF) (d : K) :
+    (MatVec.trans M).WF ∧ (MatVec.trans M).toMatrix d M.cols M.rows = (M.toMatrix d M.rows M.cols)ᵀ := by
+  refine ⟨?_, trans_toMatrix M d⟩
+  show M.data.size = M.cols * M.rows
+  rw [show M.data.size = M.rows * M.cols from hM, Nat.mul_comm]
+
+end
+
+/-- **trans(TransMat)**: the regenerated loop returns the `Mat` holding the transposed view -/
+theorem C15_trans_transmat_value {K : Type} [Zero K] (T : TMat K) (hT : T.WF) (d : K) :
+    ∃ C, MV.transT T = .ok C ∧ C.rows = T.cols ∧ C.cols = T.rows ∧ C.WF ∧
+      C.toMatrix d T.cols T.rows = (T.toMatrix d T.rows T.cols)ᵀ := by
+  rw [gen_transT]; exact transT_toMatrix T hT d
+
+/-- **storage primitives** (`Vec`/`Mat`/`SymMat` `*`, `+`, `-`, `*=`, `+=`, `-=` all go through them): on operands of
+    equal size the regenerated loops return the entrywise result — `X`'s old content is irrelevant -/
+theorem C15_storage_primitives_value {K : Type} [Add K] [Sub K] [Mul K] [Zero K] (a b X : Array K) (f d : K)
+    (hab : a.size = b.size) (hX : a.size = X.size) :
+    (∃ v, MV.baseMul a f X = .ok v ∧ v.size = a.size ∧ ∀ p, p < a.size → vat v d p = vat a d p * f)
+    ∧ (∃ v, MV.baseScale a f = .ok v ∧ v.size = a.size ∧ ∀ p, p < a.size → vat v d p = vat a d p * f)
+    ∧ (∃ v, MV.baseAdd a b X = .ok v ∧ v.size = a.size ∧ ∀ p, p < a.size → vat v d p = vat a d p + vat b d p)
+    ∧ (∃ v, MV.baseSub a b X = .ok v ∧ v.size = a.size ∧ ∀ p, p < a.size → vat v d p = vat a d p - vat b d p) := by
+  have hg : ¬ (a.size ≠ b.size ∨ a.size ≠ a.size) := by simp [hab]
+  refine ⟨?_, ?_, ?_, ?_⟩
+  · rw [gen_baseMul, ← hX]; exact baseMul_spec a f d
+  · rw [gen_baseScale]; exact baseMul_spec a f d
+  · rw [gen_baseAdd]
+    obtain ⟨v, h1, h2, h3⟩ := baseZip_spec (· + ·) a b hab d
+    exact ⟨v, by simp only [baseAdd, ← hX, hg, if_false, h1], h2, h3⟩
+  · rw [gen_baseSub]
+    obtain ⟨v, h1, h2, h3⟩ := baseZip_spec (· - ·) a b hab d
+    exact ⟨v, by simp only [baseSub, ← hX, hg, if_false, h1], h2, h3⟩
+
+/-- `trans([[1,2,3],[4,5,6]])·[[1,0],[0,1]]`, `[[1,2],[3,4]]·[[0,1],[1,0]]`, `trans(trans(M))`, executed on the regenerated loops -/
+example : MV.tMulMat (MatVec.trans (⟨2, 3, #[1, 2, 3, 4, 5, 6]⟩ : Mat Int)) ⟨2, 2, #[1, 0, 0, 1]⟩ = .ok ⟨3, 2, #[1, 4, 2, 5, 3, 6]⟩
+    ∧ MV.matMul (⟨2, 2, #[1, 2, 3, 4]⟩ : Mat Int) ⟨2, 2, #[0, 1, 1, 0]⟩ = .ok ⟨2, 2, #[2, 1, 4, 3]⟩
+    ∧ MV.matMulT (⟨1, 3, #[1, 1, 1]⟩ : Mat Int) (MatVec.trans ⟨2, 3, #[1, 2, 3, 4, 5, 6]⟩) = .ok ⟨1, 2, #[6, 15]⟩
+    ∧ MV.tMulT (MatVec.trans (⟨3, 1, #[1, 1, 1]⟩ : Mat Int)) (MatVec.trans ⟨2, 3, #[1, 2, 3, 4, 5, 6]⟩) = .ok ⟨1, 2, #[6, 15]⟩
+    ∧ MV.transT (MatVec.trans (⟨2, 3, #[1, 2, 3, 4, 5, 6]⟩ : Mat Int)) = .ok ⟨2, 3, #[1, 2, 3, 4, 5, 6]⟩
+    ∧ MV.matMul (⟨0, 3, #[]⟩ : Mat Int) ⟨3, 0, #[]⟩ = .ok ⟨0, 0, #[]⟩ := by decide
+/-- the storage primitives: `X`'s old content is overwritten; unequal sizes throw -/
+example : MV.baseAdd (#[1, 2] : Array Int) #[10, 20] #[7, 7] = .ok #[11, 22]
+    ∧ MV.baseSub (#[1, 2] : Array Int) #[10, 20] #[7, 7] = .ok #[-9, -18]
+    ∧ MV.baseMul (#[1, 2] : Array Int) 3 #[7, 7] = .ok #[3, 6]
+    ∧ MV.baseScale (#[1, 2] : Array Int) 3 = .ok #[3, 6]
+    ∧ MV.baseAdd (#[1, 2] : Array Int) #[10, 20] #[7] = .error .badRank := by decide
 
 end Gama.Props.C15
